@@ -306,9 +306,55 @@ fn forms_r(op: &str, form: &str, a: &[&str]) -> String {
 }
 
 // ------------------------------------------------------------------------------------------------
+// buffer growth at the capacity edge: u.growth <kind> <how> <pos> <value> [<offset>]
+//   how  = fresh | shrunk | cloned | grown      (how the value was built: the capacity of its buffer depends on it)
+//   pos  = 0..=9 selects the word index  len-1, len, len+1, (len+cap)/2, cap-2, cap-1, cap, cap+1, cap+2, 2*cap+3
+//          with len / cap read through verif_hooks::repr_layout_ubig AFTER the value was built
+//   kind = set_bit | clear_bit | shl | ishl | add | mulw    (operations that push words onto the buffer)
+// the result is compared with the same value computed without touching the buffer under test
+// ------------------------------------------------------------------------------------------------
+fn growth(a: &[&str]) -> String {
+    use dashu_int::verif_hooks::repr_layout_ubig;
+    let (kind, how, pos) = (a[0], a[1], usz(a[2]));
+    let v = ubig(a[3]);
+    let off = if a.len() > 4 { usz(a[4]) % 64 } else { 63 };
+    let x: UBig = match how {
+        "fresh" => v.clone(),
+        "shrunk" => { let k = 64 * (3 + (pos % 5)); (v.clone() << k) >> k }
+        "cloned" => { let mut y = (UBig::ONE << (64 * (v.bit_len() / 64 + 9))) + UBig::ONE; y.clone_from(&v); y }
+        "grown" => { let mut y = v.clone(); y += UBig::ONE << (64 * (v.bit_len() / 64 + 4)); y -= UBig::ONE << (64 * (v.bit_len() / 64 + 4)); y }
+        _ => return "unknown-op".into(),
+    };
+    if x != v {
+        panic!("growth: value changed while building it");
+    }
+    let (cap, len, _) = repr_layout_ubig(&x);
+    let cap = cap.unsigned_abs();
+    let idx = match pos {
+        0 => len.saturating_sub(1), 1 => len, 2 => len + 1, 3 => (len + cap) / 2, 4 => cap.saturating_sub(2), 5 => cap.saturating_sub(1),
+        6 => cap, 7 => cap + 1, 8 => cap + 2, _ => 2 * cap + 3,
+    };
+    let n = 64 * idx + off;
+    let bit = UBig::ONE << n;
+    let ok_if = |got: UBig, want: UBig| -> String { if got == want { "ok".into() } else { panic!("growth: wrong result") } };
+    match kind {
+        "set_bit" => { let mut y = x; y.set_bit(n); let want = if v.bit(n) { v.clone() } else { v.clone() + &bit }; ok_if(y, want) }
+        "clear_bit" => { let mut y = x; y.clear_bit(n); let want = if v.bit(n) { v.clone() - &bit } else { v.clone() }; ok_if(y, want) }
+        "shl" => { let sh = n.saturating_sub(v.bit_len()); let y = x << sh; ok_if(y, v.clone() * (UBig::ONE << sh)) }
+        "ishl" => { let sh = n.saturating_sub(v.bit_len()); let mut y = IBig::from(x); y <<= sh; ok_if(y.unsigned_abs(), v.clone() * (UBig::ONE << sh)) }
+        "add" => { let y = x + &bit; let want = if v.bit(n) { (v.clone() - &bit) + (UBig::ONE << (n + 1)) } else { &v | &bit }; ok_if(y, want) }
+        "mulw" => { let y = x * u64::MAX; ok_if(y, (v.clone() << 64) - &v) }
+        _ => "unknown-op".into(),
+    }
+}
+
+// ------------------------------------------------------------------------------------------------
 // integers
 // ------------------------------------------------------------------------------------------------
 fn int_u(op: &str, a: &[&str]) -> String {
+    if op == "growth" {
+        return growth(a);
+    }
     let x = || ubig(a[0]);
     let y = || ubig(a[1]);
     let n = || usz(a[1]);
